@@ -297,3 +297,5 @@ def run(ctx: Context) -> None:
     ctx.isolate(c15.r5_on_time, rule="C12.R4")
     ctx.isolate(c15.r1b_deadline_sorted, rule="C12.R4b")
     ctx.isolate(r5_simulator_cascade)
+    from . import c03
+    ctx.isolate(c03.r9_schedule_installs_decision, rule="C12.R6")
